@@ -37,7 +37,8 @@ def _generate_synthetic(rng):
     steps = []
     for k in range(rng.choice([1, 1, 2])):
         steps.append({'criterion': rng.choice(['cpd', 'cpd', 'chi']), 'threshold': rng.choice([0.9, 0.7, 3.3, 0.35, 0.1, 1.1, 2.675, 6.0, 0.3]) * rng.choice([1, 1, 10, 0.01]),
-                      'naming': rng.choice(['explicit', 'auto']), 'channel': rng.choice(['path', 'list']), 'input': 'fit', 'reuse_names': rng.random() < 0.5})
+                      'naming': rng.choice(['explicit', 'auto']), 'channel': rng.choice(['path', 'list']), 'input': 'fit', 'reuse_names': rng.random() < 0.5,
+                      'auto_as': rng.choice(['default', 'runtime'])})
     recs = []
     for i in range(rng.randint(1, 8)):
         n = rng.randint(1, 9)
@@ -73,7 +74,7 @@ def generate(rng, tier, idx):
     steps = []
     for k in range(rng.choice([1, 1, 2, 3])):
         steps.append({'criterion': rng.choice(['chi', 'cpd']), 'threshold': float('%.4g' % (10 ** rng.uniform(-2, 6))) if rng.random() < 0.8 else rng.choice([1e29, 1e31, 1e-9]),
-                      'naming': rng.choice(['explicit', 'auto']), 'channel': rng.choice(['path', 'list']),
+                      'naming': rng.choice(['explicit', 'auto']), 'channel': rng.choice(['path', 'list']), 'auto_as': rng.choice(['default', 'runtime']),
                       # later steps either split an output of the previous step, or re-filter the SAME input again (tuning the
                       # threshold), in which case the outputs of the earlier run are still lying around under the same names
                       'input': 'fit' if k == 0 else rng.choice(['good', 'bad', 'fit', 'fit']),
@@ -213,6 +214,9 @@ def _execute(sc, sim, out):
             r = pipe.call(filter_output, arg, output_good=g, output_bad=b, **kw)
         else:
             out.probe('auto_names')
+            if st.get('auto_as') == 'runtime':
+                # the documented value 'auto' read from a config file / command line: equal to, but not the same object as, the literal
+                kw = dict(kw, output_good=''.join(['au', 'to']), output_bad='AUTO'.lower())
             r = pipe.call(filter_output, arg, **kw)
         if r[0] != 'ok':
             out.violate('split-failed', 'filter_output raised %s: %s' % (pipe.exc_name(r), r[1]), key='%s/%s@%s' % (channel, pipe.exc_name(r), pipe.where(r[1]) if r[0] == 'exc' else ''))
